@@ -5,6 +5,7 @@ mod c09;
 mod c10;
 mod c14;
 mod c15;
+mod c18;
 mod c17reg;
 mod stream_mock;
 mod c11;
@@ -24,6 +25,7 @@ fn main() {
         "c10" => c10::run(&cases),
         "c14" => c14::run(&cases),
         "c15" => c15::run(&cases),
+        "c18" => c18::run(&cases),
         "c12" | "c13" | "c17" | "c08" | "ua" => ua::run(&cases),
         "c09" => c09::run(&cases),
         "c11" => c11::run(&cases),
